@@ -97,7 +97,8 @@ CHECKS = {
               "deductive contracts (pyvc/z3) for three sorting operators + bounded run-time contracts vs device simulations"),
     "C13": _c("exploration",
               "Deductive: is_finite (arity 0-3), four run-shape predicates equal their class definitions, memo invariants, decomposability, and the classification of a "
-              "permutation into the ten minimal non-polynomial classes (PolyPerms._find_type: split points into two monotone runs, layered permutations).  Bounded: verdicts vs "
+              "permutation into the ten minimal non-polynomial classes (PolyPerms._find_type: split points into two monotone runs, layered permutations), the memoised _types and "
+              "is_polynomial / is_non_polynomial (arity 0-3: every one of the ten types occurs among the basis elements).  Bounded: verdicts vs "
               "structure-theorem specs, container independence incl. one-shot iterators, memo cold/warm, symmetries, consistency with real enumeration.", _BNOTE,
               "deductive contracts for the finiteness / shape predicates + bounded run-time contracts vs class-membership definitions"),
     "C14": _c("exploration",
@@ -121,7 +122,8 @@ CHECKS = {
               "deductive contract for the occupied-cell computation + bounded run-time contracts over all small input sets"),
     "C18": _c("exploration",
               "Deductive (all sizes): point insertion (_add_point_new_perm through the iterator-split rule, cell splitting, add_point incl. the four directions), the six "
-              "side conditions of the north-east shading lemma, can_shade (reported values name a corner point of the original cell), region tests.  Bounded: every "
+              "side conditions of the north-east shading lemma and the side conditions of the simultaneous lemma, can_shade / can_simul_shade (reported values name a corner "
+              "point of the original cells), add_increase / add_decrease, region tests.  Bounded: every "
               "shading-lemma licence vs equality of container sets (perms <=6/7), ascii round trip.", _BNOTE,
               "deductive contracts (pyvc/z3) for point insertion and the side conditions + bounded run-time contracts vs container sets"),
     "C19": _c("exploration",
